@@ -113,6 +113,12 @@ def fieldScope (S : Schema) (parent : Option String) (name : String) : Option St
 def condScope (S : Schema) (tc : String) : Option String :=
   if (S.find tc).isSome then some tc else none
 
+/-- Type in scope inside an inline fragment: its type condition, or the enclosing type. -/
+def inlineScope (S : Schema) (parent : Option String) (tc : Option (String × Pos)) : Option String :=
+  match tc with
+  | none => parent
+  | some (t, _) => condScope S t
+
 mutual
 def occSel (S : Schema) (parent : Option String) : Selection → List Occ
   | .field al n np args dirs sel =>
@@ -122,10 +128,7 @@ def occSel (S : Schema) (parent : Option String) : Selection → List Occ
        | some ss => occSet S (fieldScope S parent n) ss)
   | .spread n np dirs p => [.spread parent n np dirs p]
   | .inline tc dirs ss p =>
-    .inline parent tc dirs p ::
-      occSet S (match tc with
-                | none => parent
-                | some (t, _) => condScope S t) ss
+    .inline parent tc dirs p :: occSet S (inlineScope S parent tc) ss
 def occSet (S : Schema) (parent : Option String) : SelSet → List Occ
   | .mk sels _ => occSels S parent sels
 def occSels (S : Schema) (parent : Option String) : List Selection → List Occ
@@ -263,10 +266,7 @@ def collect (S : Schema) (D : Document) :
     ({ rname := responseName al n, name := n, args := args, sel := sel, parent := parent,
        inner := fieldScope S parent n } :: r, vis')
   | fuel + 1, parent, vis, .inline tc _ ss _ :: rest =>
-    let scope := match tc with
-      | none => parent
-      | some (t, _) => condScope S t
-    let (a, vis1) := collect S D fuel scope vis ss.sels
+    let (a, vis1) := collect S D fuel (inlineScope S parent tc) vis ss.sels
     let (b, vis2) := collect S D fuel parent vis1 rest
     (a ++ b, vis2)
   | fuel + 1, parent, vis, .spread n _ _ _ :: rest =>
@@ -370,10 +370,7 @@ def setsSel (S : Schema) (parent : Option String) : Selection → List (Option S
      | none => []
      | some ss => setsSet S (fieldScope S parent n) ss)
   | .spread .. => []
-  | .inline tc _ ss _ =>
-    setsSet S (match tc with
-               | none => parent
-               | some (t, _) => condScope S t) ss
+  | .inline tc _ ss _ => setsSet S (inlineScope S parent tc) ss
 def setsSet (S : Schema) (parent : Option String) : SelSet → List (Option String × SelSet)
   | .mk sels p => (parent, .mk sels p) :: setsSels S parent sels
 def setsSels (S : Schema) (parent : Option String) : List Selection → List (Option String × SelSet)
